@@ -167,7 +167,7 @@ let rec predict_inner (c : string) (obs : string) : string * string * bool =
       safe (one z ^ " | " ^ one z')
   | ["mpread"; len; limit; m; k] ->
       let rs = mp_reads (nat_of_int (int_of_string k)) (z_of_string len) (z_of_string limit) (z_of_string m)
-                 { mp_pos = z_of_int 0; mp_passes = z_of_int 0 } in
+                 { mp_pos = z_of_int 0; mp_passes = z_of_int 0; mp_read_in_pass = false } in
       let p = String.concat "," (List.map (fun (n, e) -> string_of_z n ^ "/" ^ (if e then "1" else "0")) rs) in
       (* a reader must not return (0, nil) for ever: two such reads in a row mean no progress *)
       let obs_l = String.split_on_char ',' obs in
